@@ -886,7 +886,7 @@ Fixpoint carried_docs (which : Z) (cfg : sx) (reqs : list sx) : option (list byt
 Definition complete (which : Z) (m : res attempt) : bool :=
   Z.eqb which 3 || match m with Ok a => negb (at_err a) | _ => false end.
 
-Definition att_pred (which : Z) (cfg : sx) (batch : list ev) (m : res attempt) (o : sx) : bool :=
+Definition att_docs_pred (which : Z) (cfg : sx) (batch : list ev) (m : res attempt) (o : sx) : bool :=
   match o with
   | SL [SZ 0; SL reqs; SZ _] =>
       match carried_docs which cfg reqs with
@@ -898,6 +898,129 @@ Definition att_pred (which : Z) (cfg : sx) (batch : list ev) (m : res attempt) (
   | SL [SZ 2] => is_panic m
   | _ => false
   end.
+
+(* ---- the routing clause of the predicate ----------------------------------------------------------
+   Besides the document a sink may derive from an event WHERE the document goes: kafka the record's
+   topic, elasticsearch the action line with the index name built from index_format / index_values.
+   The clause: every carried document travels with the routing value of ITS OWN event,
+        kafka   topic = (use_topic_field and the event has a non-empty string in topic_field)
+                        ? that value : default_topic                                    [k_topic]
+        es      action line = {"<op>":{"_index":"<index_format with the event's values>"}}   [es_header]
+   — functions of that event and of the configuration only: no value of another event of the batch, of
+   an earlier batch of the same worker (records and buffers are reused), or of an earlier attempt may
+   show.  Executable form: the carried (route, document) pairs are, in order and without repetition,
+   pairs of the batch's deliverable events; ALL of them when the exchange ended without error (kafka:
+   always).  The other sinks have no per-event routing value outside the document: splunk's copied fields
+   and gelf's host / level / timestamp fields are part of the document, which the clause above compares
+   whole; loki's labels are configuration and demanded by loki_docs; file and http write to one target. *)
+Definition routed := (bytes * bytes)%type.        (* routing value, document *)
+Definition routed_eqb (x y : routed) : bool := bytes_eqb (fst x) (fst y) && bytes_eqb (snd x) (snd y).
+
+Fixpoint routed_subseq (xs ys : list routed) : bool :=
+  match ys with
+  | [] => is_nil xs
+  | y :: ys' =>
+      match xs with
+      | [] => true
+      | x :: xs' => if routed_eqb x y then routed_subseq xs' ys' else routed_subseq xs ys'
+      end
+  end.
+
+Fixpoint routed_list_eqb (xs ys : list routed) : bool :=
+  match xs, ys with
+  | [], [] => true
+  | x :: xs', y :: ys' => routed_eqb x y && routed_list_eqb xs' ys'
+  | _, _ => false
+  end.
+
+Definition kafka_of_sx (cfg : sx) : option k_cfg :=
+  match cfg with
+  | SL [SB dflt; usef; SZ bs] => match as_bool usef with Some u => Some (mkK dflt u bs) | None => None end
+  | _ => None
+  end.
+
+(* the action line the configuration gives the event (no line at all when the configuration has more
+   placeholders than values: out() dies there) *)
+Definition es_route (c : es_cfg) (e : ev) : bytes := match es_header c e with Ok h => h | _ => [] end.
+Definition k_routed (c : k_cfg) (e : ev) : routed := (k_topic c e, enc e).
+Definition es_routed (c : es_cfg) (e : ev) : routed := (es_route c e, enc e).
+
+(* None: the sink has no routing value outside the document *)
+Definition expected_routed (which : Z) (cfg : sx) (batch : list ev) : option (list routed) :=
+  match which with
+  | 0 => match es_of_sx cfg with
+         | Some (c, _) => Some (map (es_routed c) (deliverable batch))
+         | None => None
+         end
+  | 3 => match kafka_of_sx cfg with
+         | Some c => Some (map (k_routed c) (deliverable batch))
+         | None => None
+         end
+  | _ => None
+  end.
+
+(* a bulk body: action line / document pairs *)
+Definition es_pairs (body : bytes) : option (list routed) :=
+  let '(ls, t) := lines_tail body in
+  if negb (is_nil t) then None else
+  match unpair ls with
+  | Some (hs, ds) => Some (combine hs ds)
+  | None => None
+  end.
+
+Fixpoint es_carried_pairs (reqs : list sx) : option (list routed) :=
+  match reqs with
+  | [] => Some []
+  | SL [SB body; SZ st] :: r =>
+      match es_pairs body, es_carried_pairs r with
+      | Some d, Some ds => Some (if is_ok_status st then d ++ ds else ds)
+      | _, _ => None
+      end
+  | _ => None
+  end.
+
+(* kafka: a record is observed as (#topic -1) (#value status) *)
+Fixpoint kafka_pairs (reqs : list sx) : option (list routed) :=
+  match reqs with
+  | [] => Some []
+  | SL [SB t; SZ s1] :: SL [SB v; SZ s2] :: r =>
+      if Z.eqb s1 (-1) && negb (Z.eqb s2 (-1)) then
+        match kafka_pairs r with Some ps => Some ((t, v) :: ps) | None => None end
+      else None
+  | _ => None
+  end.
+
+Definition carried_pairs (which : Z) (reqs : list sx) : option (list routed) :=
+  if Z.eqb which 3 then kafka_pairs reqs else es_carried_pairs reqs.
+
+(* ES: a request that was NOT answered with success (413 before a split, 5xx, a rejected body) went to
+   the cluster all the same: whatever its answer, every request consists, in order, of (action line,
+   document) pairs of the batch's deliverable events *)
+Fixpoint es_all_routed (want : list routed) (reqs : list sx) : bool :=
+  match reqs with
+  | [] => true
+  | SL [SB body; SZ _] :: r =>
+      match es_pairs body with Some d => routed_subseq d want | None => false end && es_all_routed want r
+  | _ => false
+  end.
+
+Definition route_pred (which : Z) (cfg : sx) (batch : list ev) (m : res attempt) (o : sx) : bool :=
+  match expected_routed which cfg batch with
+  | None => true
+  | Some want =>
+      match o with
+      | SL [SZ 0; SL reqs; SZ _] =>
+          match carried_pairs which reqs with
+          | Some ps => routed_subseq ps want && (if complete which m then routed_list_eqb ps want else true)
+                       && (if Z.eqb which 0 then es_all_routed want reqs else true)
+          | None => false
+          end
+      | _ => true            (* a panic: judged by the clause above *)
+      end
+  end.
+
+Definition att_pred (which : Z) (cfg : sx) (batch : list ev) (m : res attempt) (o : sx) : bool :=
+  att_docs_pred which cfg batch m o && route_pred which cfg batch m o.
 
 Fixpoint pred_all (which : Z) (cfg : sx) (ms : list (list ev * res attempt)) (os : list sx) : bool :=
   match ms, os with
